@@ -192,18 +192,38 @@ fn run_program(spec: &J) -> J {
     }));
     let oplog = target.log.borrow().clone();
     let target = target.inner;
-    let (outcome, value, message) = match res {
+    let (outcome, value, message) = match &res {
         Err(e) => {
             let msg = e.downcast_ref::<String>().cloned().or_else(|| e.downcast_ref::<&str>().map(|s| (*s).to_string())).unwrap_or_default();
             let loc = LAST_PANIC_LOC.with(|l| l.borrow().clone());
             ("panic", J::Null, format!("{msg} @ {loc}"))
         }
-        Ok(Ok(v)) => ("ok", to_tagged(&v), String::new()),
+        Ok(Ok(v)) => ("ok", to_tagged(v), String::new()),
         Ok(Err(Terminate::Abort(e))) => ("abort", J::Null, e.to_string()),
         Ok(Err(Terminate::Error(e))) => ("error", J::Null, e.to_string()),
     };
     let info = program.info();
+    // type-soundness observation: does what the run produced belong to what the compiler reported?
+    let tinfo = program.final_type_info();
+    let mut type_errors: Vec<String> = Vec::new();
+    if outcome == "ok" {
+        if let Ok(Ok(v)) = &res {
+            let reported = tinfo.result.kind().clone().union(tinfo.result.returns().clone());
+            if let Err(p) = reported.is_superset(&Kind::from(v)) {
+                type_errors.push(format!("result value {v} not in reported result kind {reported} (at {p})"));
+            }
+        }
+        let tk = tinfo.state.external.target_kind();
+        if let Err(p) = tk.is_superset(&Kind::from(&target.value)) {
+            type_errors.push(format!("final event {} not in reported event kind {tk} (at {p})", target.value));
+        }
+        let mk = tinfo.state.external.metadata_kind();
+        if let Err(p) = mk.is_superset(&Kind::from(&target.metadata)) {
+            type_errors.push(format!("final metadata {} not in reported metadata kind {mk} (at {p})", target.metadata));
+        }
+    }
     json!({
+        "type_errors": type_errors,
         "compiled": true,
         "outcome": outcome,
         "value": value,
